@@ -12,7 +12,7 @@ open Nat
 
 /-- StorePrimes.hpp:84 — the whole-buffer loop: ends with a buffer whose last entry exceeds `limit`; `acc ++ buffer` is still exactly the
     primes from `start` to that entry and everything in `acc` is `≤ limit` -/
-theorem storeLoop1_spec (e : Env) (he : GenSpec e) (start limit : ℕ) (hlim : limit < maxPrime64) :
+theorem storeLoop1_specC (e : Env) (he : GenSpec e) (start limit : ℕ) (hlim : limit < maxPrime64) :
     ∀ fuel (s : St) (acc : List ℕ) (L : ℕ), s.buf.getLast? = some L → PrimesIn (acc ++ s.buf) start L → FwdReady s (L + 1) →
       L + 1 ≤ umax → s.hint ≤ umax → s.start ≤ umax → (∀ x ∈ acc, x ≤ limit) → limit + 1 - L < fuel →
       ∃ s' acc' L', storeLoop1 e limit fuel s acc = .ok (s', acc') ∧ s'.buf.getLast? = some L' ∧ limit < L' ∧
@@ -40,7 +40,7 @@ theorem storeLoop1_spec (e : Env) (he : GenSpec e) (start limit : ℕ) (hlim : l
       exact ⟨s, acc, L, rfl, hL, by omega, hP, hacc⟩
 
 /-- StorePrimes.hpp:86 — the element loop stops at the first entry `> limit` (one exists: no read past the end) -/
-theorem storeLoop2_spec (limit : ℕ) (buf : List ℕ) :
+theorem storeLoop2_specC (limit : ℕ) (buf : List ℕ) :
     ∀ k i (acc : List ℕ), buf.length - i = k → (∃ j, ∃ h : j < buf.length, i ≤ j ∧ limit < buf[j]) →
       storeLoop2 limit buf i acc = .ok (acc ++ (buf.drop i).takeWhile (fun y => decide (y ≤ limit))) := by
   intro k
@@ -90,7 +90,7 @@ theorem storePrimes_correct (e : Env) (he : GenSpec e) (vmax start stop : ℕ) (
     obtain ⟨hP0, hr0, hL0u, _⟩ := fwdDone_ready hd hL0
     simp only [h0]
     have hlim : min stop (maxPrime64 - 1) < maxPrime64 := by unfold maxPrime64; omega
-    obtain ⟨s1, acc1, L1, h1, hL1, hgt, hP1, hacc1⟩ := storeLoop1_spec e he start (min stop (maxPrime64 - 1)) hlim
+    obtain ⟨s1, acc1, L1, h1, hL1, hgt, hP1, hacc1⟩ := storeLoop1_specC e he start (min stop (maxPrime64 - 1)) hlim
       (min stop (maxPrime64 - 1) + 2) s0 [] L0 hL0 (by simpa using hP0) hr0 hL0u (by rw [hd.hint]; exact hu) hd.start_le
       (by simp) (by omega)
     simp only [h1]
@@ -100,7 +100,7 @@ theorem storePrimes_correct (e : Env) (he : GenSpec e) (vmax start stop : ℕ) (
       have := List.getLast?_eq_getElem? (l := s1.buf)
       rw [hL1, List.getElem?_eq_getElem (by omega)] at this
       exact (Option.some.inj this).symm
-    rw [storeLoop2_spec _ s1.buf _ 0 acc1 rfl ⟨s1.buf.length - 1, by omega, Nat.zero_le _, by rw [hlast]; exact hgt⟩]
+    rw [storeLoop2_specC _ s1.buf _ 0 acc1 rfl ⟨s1.buf.length - 1, by omega, Nat.zero_le _, by rw [hlast]; exact hgt⟩]
     simp only [List.drop_zero]
     have hR : PrimesIn (acc1 ++ s1.buf.takeWhile (fun y => decide (y ≤ min stop (maxPrime64 - 1)))) start (min stop (maxPrime64 - 1)) := by
       have := hP1.takeWhile (b := min stop (maxPrime64 - 1)) (by omega)
